@@ -135,12 +135,12 @@ def explore_chunk(modname, obname, scen_idx, prefixes, tier, chunk_s, max_paths,
             st["nontrivial_paths"] += 1
             for c in cov:
                 st["cover"][c] = st["cover"].get(c, 0) + 1
-            if len(st["samples"]) < 2 and ctx.requires:
+            if len(st["samples"]) < 2:
                 m = ctx.get_model()
                 if m is not None:
                     mv = ctx.model_values(m)
                     st["samples"].append({"scenario": _short(params), "decisions": len(ctx.prefix),
-                                          "assertions_discharged_on_path": ctx.discharged,
+                                          "assertions_discharged_on_path": ctx.discharged + ctx.trivial_requires,
                                           "covered": sorted(cov),
                                           "witness_input": dict(list(mv.items())[:24])})
         if status == "abort" and msg.startswith("outside-bound"):
